@@ -174,7 +174,7 @@ def make_asyncio_shim():
 
 
 def setup(opts):
-    run.datetime = VDT
+    # (not `run.datetime = VDT`: the name may be bound to the datetime MODULE in another spelling of the imports)
     patchall.patch_attr(dt, "datetime", VDT)   # wherever else the package reads the clock: the class under any name,
     #                                        or the datetime module itself under any name (import datetime as dt)
     run.delayed_send = delayed_send_shim
